@@ -155,7 +155,7 @@ def d_ctx(num, content):
     return t + d_len(len(content)) + content
 
 
-def key_description(challenge, sw_all=False, tee_all=False, origin=0, purpose=(2,), tee_extra=b"", sw_origin=None, sw_purpose=None):
+def key_description(challenge, sw_all=False, tee_all=False, origin=0, purpose=(2,), tee_extra=b"", sw_origin=None, sw_purpose=None, versions=(3, 4), levels=(1, 1)):
     def alist(all_apps, origin, purpose):
         items = b""
         if purpose is not None:
@@ -165,7 +165,7 @@ def key_description(challenge, sw_all=False, tee_all=False, origin=0, purpose=(2
         if origin is not None:
             items += d_ctx(702, d_int(origin))
         return d_tlv(0x30, items)
-    body = d_int(3) + d_int(1, 0x0A) + d_int(4) + d_int(1, 0x0A) + d_tlv(0x04, challenge) + d_tlv(0x04, b"") \
+    body = d_int(versions[0]) + d_int(levels[0], 0x0A) + d_int(versions[1]) + d_int(levels[1], 0x0A) + d_tlv(0x04, challenge) + d_tlv(0x04, b"") \
         + alist(sw_all, sw_origin, sw_purpose) + alist(tee_all, origin, purpose)
     return d_tlv(0x30, body)
 
@@ -365,6 +365,8 @@ def build(s):
         extra = HNAME[k.get("tpm_extra_hash", hname)](signed_ad + signed_cdh).digest()
         if "tpm_extra_cut" in k:
             extra = extra[:k["tpm_extra_cut"]]          # a truncated (possibly empty) qualifyingData, genuinely signed by the AIK
+        if "tpm_extra_tail" in k:
+            extra = extra[-k["tpm_extra_tail"]:]
         name_prefix = k.get("tpm_name_prefix", struct.pack(">H", TPM_ALG[name_alg]))
         nm = name_prefix + HNAME[k.get("tpm_name_hash", name_alg)](k.get("tpm_named_pub_area", pub_area)).digest()
         if "tpm_name_cut" in k:
@@ -392,7 +394,8 @@ def build(s):
         builtin["apple"] = [pki.root_pem()] if s.roots_mode != "builtin-other" else []
     elif fmt == "android-key":
         kd = key_description(k.get("ak_challenge", signed_cdh), sw_all=k.get("ak_sw_all", False), tee_all=k.get("ak_tee_all", False),
-                             origin=k.get("ak_origin", 0), purpose=k.get("ak_purpose", (2,)), sw_origin=k.get("ak_sw_origin"), sw_purpose=k.get("ak_sw_purpose"))
+                             origin=k.get("ak_origin", 0), purpose=k.get("ak_purpose", (2,)), sw_origin=k.get("ak_sw_origin"), sw_purpose=k.get("ak_sw_purpose"),
+                             versions=k.get("ak_versions", (3, 4)), levels=k.get("ak_levels", (1, 1)))
         exts = [] if k.get("ak_no_ext") else [(x509.UnrecognizedExtension(ObjectIdentifier("1.3.6.1.4.1.11129.2.1.17"), kd), False)]
         leaf_pub = k.get("ak_leaf_cred", cred).pk
         leaf = pki.leaf(name("Forged Android Keystore Key"), leaf_pub, nb=leaf_nb, na=leaf_na, exts=exts, signer_key=k.get("leaf_signer"))
@@ -437,6 +440,14 @@ def build(s):
     ao = {"fmt": s.fmt_name(), "attStmt": stmt, "authData": k.get("ao_auth_data", ad)}
     if k.get("no_att_stmt"):
         del ao["attStmt"]
+    if k.get("ao_shadow"):
+        # members next to the three the attestation object defines: the SAME statement and format under other keys (CTAP2's integer keys 1, 2, 3, other spellings),
+        # with authenticator data that lacks the fault the real one carries - only "fmt", "attStmt" and "authData" are the attestation object
+        good = authsim.authdata(s.rp_id, s.flags | 0x45, s.count, aaguid=aaguid, cred_id=s.cred_id, cose_bytes=cred.cose_bytes, ext=s.ext)
+        shadow = {1: ao["fmt"], 2: good, 3: ao.get("attStmt", {}), "authdata": good, "auth_data": good, "AuthData": good, "authenticatorData": good, "authData ": good}
+        keys = k["ao_shadow"] if isinstance(k["ao_shadow"], (list, tuple)) else list(shadow)
+        front = {kk: shadow[kk] for kk in keys if kk in shadow and isinstance(kk, int)}
+        ao = {**front, **ao, **{kk: shadow[kk] for kk in keys if kk in shadow and not isinstance(kk, int)}}
     att_obj = cbor2.dumps(ao)
     # the OUTER rawId / id of the credential (client-controlled) may differ from the credential id attested inside authData
     reg = Registration(cred, k.get("outer_raw_id", s.cred_id), cdj, att_obj, id_text=s.id_text, typ=s.typ)
